@@ -557,6 +557,8 @@ def oracle_session(spec, obs, live=None):
 def in_domain(spec, complete):
     """the property's statement presupposes that the write can succeed at all: the two resolutions of every complete
     species have the same number of residues, and the end molecules agree on having velocities"""
+    if spec["title"] == "":
+        return False       # see docs/design_notes/C05.md: an empty title line makes the writer raise IndexError
     vel = set()
     for k in complete:
         sp = spec["species"][k]
@@ -853,12 +855,15 @@ def describe(spec):
 
 def correspondence(ctx):
     rs = ctx.np_rng("K")
-    n = ctx.n(200, 1500)
+    n = ctx.n(200, 1200)
     specs = corpus_specs() + [gen_spec(rs) for _ in range(n)]
     specs.append(shipped_spec(ctx.n(10, 40)))
     specs.append(shipped_spec(ctx.n(10, 40), pattern="late_end"))
+    specs.append(empty_title_spec(rs))
     if not ctx.quick:
-        specs.append(shipped_spec(300))
+        # 100 + 100 molecules (3000 written atoms): the writer model rewrites its byte list at every write, the whole
+        # box (9000 atoms) is beyond vm_compute's reach in K and goes through the S oracle (oracle(), thorough tier)
+        specs.insert(0, shipped_spec(100, s=1.0))       # first: its shard is the longest
     cases, metas, hist = [], [], {}
     feat = {"triclinic": 0, "small_reference": 0, "multi_residue": 0, "wrap_resid": 0, "velocities": 0, "extrap_calls": 0,
             "files_written": 0, "refused_no_file": 0}
@@ -942,6 +947,16 @@ def wrap_spec(rs):
     ncopies = 100000 // len(sp["aa_atoms"]) + 20
     spec = relayout(rs, spec, [k] * ncopies, [k])
     spec["pattern"] = "atom_number_wrap"
+    return spec
+
+
+def empty_title_spec(rs):
+    """an input whose title line is empty: the comment setter leaves '' and GroFile._setup_write_file evaluates
+    comment[-1] -> IndexError at the first writeline, an empty output file is left behind (model: Err EIndex from
+    the writer).  K compares it; the S oracle treats it as outside the domain (reported, see the design note)."""
+    spec = gen_spec(rs, kind="normal")
+    spec["title"] = ""
+    spec["pattern"] = "empty_title"
     return spec
 
 
